@@ -29,9 +29,10 @@ class W:
         self.note = note
 
 
-def family(fid, props, floor, doc):
+def family(fid, props, floor, doc, quick_props=None):
     def deco(fn):
         FAMILIES[fid] = Fam(fid, props, floor, doc, fn)
+        FAMILIES[fid].quick_props = quick_props if quick_props is not None else props
         return fn
     return deco
 
@@ -262,6 +263,6 @@ def run_families(ctx, pid, tier, seed):
     out = []
     from . import families  # noqa: registers
     for fid, fam in sorted(FAMILIES.items()):
-        if pid in fam.props:
+        if pid in (fam.props if tier == 'thorough' else fam.quick_props):
             out.append((fid, fam.run(ctx, tier, seed)))
     return out
